@@ -296,6 +296,8 @@ def gen_case(rng, idx):
     case['rootsA'] = [[cqs(r), n] for (r, n) in rootsA]
     case['rootsB'] = None if rootsB is None else [[cqs(r), n] for (r, n) in rootsB]
     dl = rng.random()
+    if domain == 'z' and kind != 'symbolic' and idx % 12 == 9:
+        case['form'] = 'zinv'       # the discrete-time habit: numerator and denominator written in powers of 1/z
     case['T'] = fstr(Fraction(0)) if dl < 0.5 else fstr(rng.choice([1, 2, 3, 4, 6]) * T0)
     case['nu'] = rng.choice([0, 0, 0, 1, 1, 2]) if domain != 'jf' else rng.choice([0, 0, 1])
     return case
@@ -320,8 +322,9 @@ def build(L_, case):
         Be = parse_cq(Bs['lc'], L_) * (v + 2 * a) ** Bs['a2'] * (v + b) ** Bs['b'] * v ** Bs['v']
         Ae, Be = S.expand(Ae), S.expand(Be)
     else:
-        Ae = sum(parse_cq(c, L_) * v ** i for i, c in enumerate(case['A']))
-        Be = sum(parse_cq(c, L_) * v ** i for i, c in enumerate(case['B']))
+        sh = (max(len(case['A']), len(case['B'])) - 1) if case.get('form') == 'zinv' else 0
+        Ae = sum(parse_cq(c, L_) * v ** (i - sh) for i, c in enumerate(case['A']))
+        Be = sum(parse_cq(c, L_) * v ** (i - sh) for i, c in enumerate(case['B']))
     e = Be / Ae
     T = Fraction(case['T'])
     if T != 0:
@@ -402,10 +405,10 @@ def formats(H, v):
         ('multiply_top_and_bottom', lambda: H.multiply_top_and_bottom(v + 1), ('mtb | 1 1', 'mtbsrc | 1 1')),
         ('divide_top_and_bottom', lambda: H.divide_top_and_bottom(v), 'dtb | 0 1'),
         ('divide_top_and_bottom_quadratic', lambda: H.divide_top_and_bottom(v**2 + 2 * v + 3), 'dtb | 3 2 1'),
-        ('as_sum', lambda: H.as_sum(), None),
+        ('as_sum', lambda: H.as_sum(), 'expand_response'),
         ('as_monic_terms', lambda: H.as_monic_terms(), None),
         ('as_nonmonic_terms', lambda: H.as_nonmonic_terms(), None),
-        ('expand_response', lambda: H.expand_response(), None),
+        ('expand_response', lambda: H.expand_response(), 'expand_response'),
         ('expand', lambda: H.expand(), None),
         ('rationalize_denominator', lambda: H.rationalize_denominator(), 'rationalize'),
     ]
@@ -466,6 +469,7 @@ class Runner:
         chk.case((case['domain'], tuple(case['B']), tuple(case['A']), case['T'], case['nu'], str(case.get('symvals'))), nontriv)
         chk.count('domain', case['domain'])
         chk.count('kind', case['kind'])
+        chk.count('form', '%s:%s' % (case['domain'], case.get('form', 'polynomials in the variable')))
         chk.count('degree excess (deg B - deg A)', str(len(case['B']) - len(case['A'])))
         chk.count('delay', 'yes' if hasdelay else 'no')
         chk.count('undefined factors', str(case['nu']))
@@ -1123,6 +1127,7 @@ class Runner:
 
 
 def run(chk, replay=None):
+    t_start = time.time()
     # ---- 1. translator
     text, info = tx_ratfun.generate(common.REPO)
     gen_path = os.path.join(common.LEAN, 'Lcapy', 'Generated', 'RatfunSrc.lean')
@@ -1153,6 +1158,7 @@ def run(chk, replay=None):
     chk.coverage['rule'] = ('each case = one generalised rational function B/A*exp(-T var)*U(var)^nu in s, z, omega (jw) or f (jf): '
                             'B, A from root tables (rational, zero, repeated, conjugate pairs, lone Gaussian roots), random coefficients, '
                             'symbolic coefficients sampled at rational values, or with a common factor; deg 0..4 each; T in {0, k/2}; nu in {0,1,2}; '
+                            'in the z domain also written in powers of 1/z; '
                             'every formatting method/option is called on it and judged at 2 (quick) / 3 (thorough) random rational points; '
                             'the data-returning methods (coeffs, normcoeffs, Ratfun.coeffs, ba, degrees, poles/zeros dictionaries and lists, as_QMA, as_QRPO, '
                             'the as_QRPO data of the function of 1/var behind recippartfrac) are compared structurally with the model and judged by the Lean checkers; '
@@ -1179,9 +1185,10 @@ def run(chk, replay=None):
                         chk.count('corpus', fn)
         ncases = 84 if chk.tier == 'quick' else 600
         budget = 110 if chk.tier == 'quick' else 900
+        cap = 150 if chk.tier == 'quick' else 1050        # total elapsed (build + import + corpus), keeps the wall time bounded on a loaded machine
         t0 = time.time()
         for i in range(ncases):
-            if time.time() - t0 > budget:
+            if time.time() - t0 > budget or time.time() - t_start > cap:
                 chk.count('budget', 'stopped-after-%d-cases' % i)
                 break
             case = gen_case(rng, i)
